@@ -77,6 +77,13 @@ pub fn __slice_all_eq(s: &[Word], c: Word) -> (ret: bool)
     true
 }
 
+/// Target of lowering rule D16 (`&mut P[range]` with P a `Box<[Word]>`): the identity, VERIFIED here, not trusted.
+pub fn __as_mut_slice(s: &mut [Word]) -> (r: &mut [Word])
+    ensures r@ == old(s)@, final(r)@ == final(s)@,
+{
+    s
+}
+
 pub proof fn lemma_b2i_mul(b: bool, p: int)
     ensures b2i(b) * p == if b { p } else { 0 },
 {
@@ -211,3 +218,16 @@ pub proof fn lemma_add_div(x: int, y: int, p: int)
     lemma_div_of_multiple(a + b, p);
     lemma_div_of_multiple(a - b, p);
 }
+
+/// dividing the common factor p out of r0 < mv
+pub proof fn lemma_scaled_lt(r0: int, mv: int, p: int)
+    requires p >= 1, r0 % p == 0, mv % p == 0, 0 <= r0 < mv,
+    ensures 0 <= r0 / p < mv / p,
+{
+    lemma_exact_div(r0, p);
+    lemma_exact_div(mv, p);
+    let r = r0 / p;
+    let m = mv / p;
+    assert(0 <= r < m) by (nonlinear_arith) requires r0 == r * p, mv == m * p, 0 <= r0 < mv, p >= 1;
+}
+
